@@ -18,11 +18,13 @@ struct B<'a> {
     ex: Exec<'a>,
     lines: Vec<String>,
     fails: u32,
+    /// where the first sorts are applied when that is not the container of the generated siblings
+    sort_at: Option<usize>,
 }
 
 impl<'a> B<'a> {
     fn new(names: &'a Names) -> B<'a> {
-        let mut b = B { ex: Exec::new(names), lines: vec![], fails: 0 };
+        let mut b = B { ex: Exec::new(names), lines: vec![], fails: 0, sort_at: None };
         b.op(Op::NewModel);
         b.op(Op::CreateFile(0, b"f0.arxml".to_vec(), 0x100000));
         b
@@ -71,10 +73,11 @@ impl<'a> B<'a> {
     }
     fn finish(mut self, k: usize, fam: &str, set: &str, container: usize, out: &mut String) {
         // the observations: comparison matrix, sort (twice: the second must change nothing), whole-model sort
+        let at = self.sort_at.unwrap_or(container);
         self.op(Op::CmpKids(container));
-        self.op(Op::Sort(container));
+        self.op(Op::Sort(at));
         self.op(Op::CmpKids(container));
-        self.op(Op::Sort(container));
+        self.op(Op::Sort(at));
         self.op(Op::SortModel(0));
         let mut probes: BTreeSet<String> = BTreeSet::new();
         for m in &self.ex.models {
@@ -168,6 +171,10 @@ enum Sib {
     /// AR-PACKAGE of a LENIENTLY loaded document: the short name is not ASCII (it may end in a multi-byte character,
     /// optionally followed by digits) - the editing API and strict loading refuse such names
     Lenient(&'static str),
+    /// ANNOTATION with this ANNOTATION-ORIGIN
+    Ann(&'static str),
+    /// SDG with this GID attribute
+    Sdg(&'static str),
 }
 
 /// identifies the sibling up to the stored order of its reorderable content (the multiset a group is made of)
@@ -349,6 +356,16 @@ fn build_sib(b: &mut B, c: usize, k: usize, s: &Sib) {
             let v = b.sub(e, "VALUE");
             b.text(v, value);
         }
+        Sib::Ann(origin) => {
+            let a = b.sub(c, "ANNOTATION");
+            let ao = b.sub(a, "ANNOTATION-ORIGIN");
+            b.text(ao, origin);
+        }
+        Sib::Sdg(gid) => {
+            let e = b.sub(c, "SDG");
+            let a = b.at("GID");
+            b.op(Op::SetAttr(e, a, Val::S(gid.as_bytes().to_vec())));
+        }
         Sib::Lenient(_) => panic!("lenient siblings are loaded, not built"),
         Sib::Inline(kind) => {
             let e = b.sub(c, kind);
@@ -399,6 +416,33 @@ fn build_container(b: &mut B, fam: &str) -> usize {
             let st = b.sub(ch, "SCHEDULE-TABLES");
             let t = b.named(st, "LIN-SCHEDULE-TABLE", "t");
             b.sub(t, "TABLE-ENTRYS")
+        }
+        // reorderable content BELOW a member of an ORDERED container: the sort is applied above (or at) the ordered container
+        // and has to descend through it
+        "below-idt" | "below-sdg" => {
+            let el = b.elements();
+            let t = b.named(el, "IMPLEMENTATION-DATA-TYPE", "t");
+            let se = b.sub(t, "SUB-ELEMENTS");
+            assert!(b.ex.handles[se].element_type().is_ordered(), "SUB-ELEMENTS is not ordered");
+            let e = b.named(se, "IMPLEMENTATION-DATA-TYPE-ELEMENT", "e");
+            if fam == "below-idt" {
+                b.sort_at = Some(t);
+                b.sub(e, "ANNOTATIONS")
+            } else {
+                b.sort_at = Some(0);
+                let ad = b.sub(e, "ADMIN-DATA");
+                b.sub(ad, "SDGS")
+            }
+        }
+        "below-bsw" => {
+            let el = b.elements();
+            let m = b.named(el, "BSW-MODULE-ENTRY", "b");
+            let args = b.sub(m, "ARGUMENTS");
+            assert!(b.ex.handles[args].element_type().is_ordered(), "ARGUMENTS is not ordered");
+            let a = b.named(args, "SW-SERVICE-ARG", "a");
+            // the public sort is called on the ordered container itself
+            b.sort_at = Some(args);
+            b.sub(a, "ANNOTATIONS")
         }
         "mixed" => {
             let pk = b.packages();
@@ -493,6 +537,17 @@ fn families(tier: &str) -> Vec<(&'static str, Vec<Vec<Sib>>)> {
     v.push(("paramidx", vec![
         vec![ParamIdx(Some("7"), Some("/d/a"), Some("2")), ParamIdx(Some("7"), Some("/d/a"), Some("10")), ParamIdx(Some("7"), Some("/d/a"), Some("1b"))],
         vec![ParamIdx(None, None, Some("9")), ParamIdx(None, None, Some("0x10")), ParamIdx(None, None, Some("0y"))],
+    ]));
+    for fam in ["below-idt", "below-bsw"] {
+        v.push((fam, vec![
+            vec![Ann("b"), Ann("a")],
+            vec![Ann("c"), Ann("a"), Ann("b")],
+            vec![Ann("a2"), Ann("a10"), Ann("a")],
+        ]));
+    }
+    v.push(("below-sdg", vec![
+        vec![Sdg("b"), Sdg("a")],
+        vec![Sdg("g2"), Sdg("g10"), Sdg("g1")],
     ]));
     v.push(("mixed", vec![vec![Inline("TT"), Inline("E"), Inline("SUB")]]));
     v.push(("verorder", vec![vec![AppEntry("2"), AppEntry("1")]]));
@@ -599,7 +654,7 @@ pub fn gen_main(args: &[String]) {
             for (i, n) in perm.iter().enumerate() {
                 t = t.replace(&format!(">q{}q<", i), &format!(">{}<", n));
             }
-            let mut b = B { ex: Exec::new(&names), lines: vec![], fails: 0 };
+            let mut b = B { ex: Exec::new(&names), lines: vec![], fails: 0, sort_at: None };
             b.op(Op::NewModel);
             let line = Op::Load(0, t.into_bytes(), b"f0.arxml".to_vec(), false);
             b.lines.push(line.line());
